@@ -227,7 +227,7 @@ where
         loop {
             match self.peek()? {
                 Some(b' ') | Some(b'\n') | Some(b'\t') | Some(b'\r') | Some(0x0C) | Some(b')')
-                | Some(b']') | Some(b'(') | Some(b'[') | Some(b';') | None => {
+                | Some(b']') | Some(b'(') | Some(b'[') | Some(b';') | Some(b'"') | None => {
                     if scratch == b"." {
                         return error(self, ErrorCode::InvalidSymbol);
                     }
@@ -395,7 +395,7 @@ impl<'a> SliceRead<'a> {
             crate::verif::tick();
             match self.peek_byte() {
                 None | Some(b' ') | Some(b'\n') | Some(b'\t') | Some(b'\r') | Some(0x0C)
-                | Some(b')') | Some(b']') | Some(b'(') | Some(b'[') | Some(b';') => {
+                | Some(b')') | Some(b']') | Some(b'(') | Some(b'[') | Some(b';') | Some(b'"') => {
                     if scratch.is_empty() {
                         // Fast path: return a slice of the raw S-expression without any
                         // copying.
